@@ -693,4 +693,9 @@ impl ThetaHashTable {
     pub fn verif_table(&self) -> (u8, Vec<u64>) {
         (self.lg_cur_size, self.entries.clone())
     }
+
+    /// Verification hook: records that a value was offered, as `hash_and_screen` does.
+    pub fn verif_mark_offered(&mut self) {
+        self.is_empty = false;
+    }
 }
